@@ -54,7 +54,8 @@ ASSUMPTIONS = [
     "countries the worker was actually called for",
     "when no country runs (net_pop == 0) the fraction is undefined: only net_pop == net_pop_fed == 0 and empty "
     "results are required",
-    "sums compared at 1e-9 relative (floats summed in table order); the [0,1] bound allows 1e-12",
+    "sums compared at 1e-9 relative (floats summed in table order); the [0,1] bound allows 1e-12; consequently a cap "
+    "threshold that is off by less than 1e-9 cannot be seen (ratios 1 +/- 10**-k, k = 1..15, are generated)",
     "with return_results=False the results mapping is empty by contract and only the aggregates are checked",
     "a coordinator call that raises (e.g. verify_country_data rejecting an overridden population) returns nothing and "
     "gets no verdict; it is counted as a probe",
@@ -227,13 +228,18 @@ PROFILES = {
     "many_failed": {"between": 2, "above_one": 1, "nan": 3},
     "boundary": {"one": 2, "between": 2, "above_one": 2},
     "no_faults": {"zero": 1, "between": 4, "one": 1, "above_one": 3},
+    # every country a hair above / below the cap: a cap threshold that is slightly off shows up in the sums
+    "just_above_one": {"above_one": 1},
+    "just_below_one": {"between": 1},
 }
 
 
 def gen_ratios(rng, codes):
     name = rng.pick(["varied", "varied", "varied", "mostly_fed", "all_above_one", "all_zero", "all_failed",
-                     "many_failed", "boundary", "no_faults", "no_faults"])
+                     "many_failed", "boundary", "no_faults", "no_faults", "just_above_one", "just_below_one"])
     w = PROFILES[name]
+    k_all = rng.randrange(1, 9)  # hair width 10**-k, shared by the call in three calls out of four
+    shared = rng.chance(0.75)
     classes = sorted(w)
     weights = [w[c] for c in classes]
     by_code = {}
@@ -241,6 +247,9 @@ def gen_ratios(rng, codes):
         cls = rng.choices(classes, weights)[0]
         if name == "boundary":
             v = {"one": 1.0, "between": 0.9999999999999999, "above_one": 1.0000000000000002}[cls]
+        elif name in ("just_above_one", "just_below_one"):
+            k = k_all if shared else rng.randrange(1, 16)
+            v = 1.0 + 10.0 ** -k if name == "just_above_one" else 1.0 - 10.0 ** -k
         else:
             v = _ratio_value(rng, "above_one" if cls == "above_one" else cls)
         by_code[c] = engine_g.encode_ratio(v)
